@@ -351,6 +351,12 @@ def s4(chk: Check, proj: Project) -> None:
     chk.ob("S4", "template:cached_template:hit-is-the-caches-answer", m.loc(redef[1]) if len(redef) > 1 else m.loc(g[0]), len(redef) == 1,
            f"`{got}` has a single definition, the cache lookup" if len(redef) == 1 else
            f"`{got}` is reassigned after the lookup (`{short(redef[1])}`): a repeated key that was never evicted is recompiled and the entry overwritten, so callers alternate between different Template objects")
+    # every place that compiles a Template here passes the same arguments (a duplicated fast path must not forget one)
+    ctors_all = [c for c in calls(f) if norm(c.func) == "template_cls"]
+    sigs = {(tuple(norm(a) for a in c.args), tuple(sorted((k.arg or "**", norm(k.value)) for k in c.keywords))) for c in ctors_all}
+    chk.ob("S4", "template:cached_template:constructor-calls-agree", m.loc(ctors_all[-1]) if ctors_all else m.loc(f), len(sigs) == 1,
+           f"{len(ctors_all)} template_cls(...) call(s) with identical arguments" if len(sigs) == 1 else
+           f"the template_cls(...) calls differ in their arguments ({sorted(sigs)}): with the cache disabled (size 0) the template is compiled without its origin, so relative {{% extends './x.html' %}} fails there while sizes >= 1 render correctly - the output depends on the configured cache size")
     # key completeness: every input of the memoised computation (the arguments of the constructor call on a miss) is an
     # input of the key - otherwise a hit hands out a value computed for other inputs
     ctor = [v for _s, v in hitv if isinstance(v, ast.Call) and norm(v.func) == "template_cls"]
